@@ -296,6 +296,13 @@ Proof.
   - now elim H1.
 Qed.
 
+Lemma call_returns f g h a e : call f g true h a e <> CHang.
+Proof.
+  unfold call. destruct h; try discriminate;
+    destruct (http_request f g true _ a) as [[j|]| |]; cbn; try discriminate;
+    destruct (String.eqb _ e); discriminate.
+Qed.
+
 (* success only on a 200 answer whose body is a JSON document *)
 Lemma call_ok_well_formed f g h a e :
   call f g true h a e = CRetOk -> negb (a_ok a) || well_formed (a_body a) = true.
@@ -318,6 +325,18 @@ Proof.
   - apply poll_total.
   - now elim H2.
   - now elim H1.
+Qed.
+
+Lemma poll_returns f g iv tok : poll f g true iv tok <> CHang.
+Proof.
+  unfold poll. destruct (iv <=? 0)%Z; [discriminate|]. destruct (max_wait <? iv)%Z; [discriminate|].
+  destruct (http_request f g true HDeviceToken tok); discriminate.
+Qed.
+
+Lemma device_flow_returns f g dev tok : device_flow f g true dev tok <> CHang.
+Proof.
+  unfold device_flow. destruct (http_request f g true HDeviceAuthz dev) as [[j|]| |]; try discriminate.
+  apply poll_returns.
 Qed.
 
 Lemma device_flow_ticker_panics f g :
@@ -479,10 +498,44 @@ Lemma ro_typed_nil_panics :
                       ro_rt_ok := true; ro_iss_ok := true; ro_aud_ok := true; ro_sig_ok := false |} = HPanic.
 Proof. reflexivity. Qed.
 
+(* ---- layer (c3): native redirect URIs ---- *)
+Lemma loop_match_total regs : loop_match true regs = HRefused \/ loop_match true regs = HAccepted.
+Proof.
+  induction regs as [|k r IH]; cbn; [now left|]. destruct k as [|l s]; [exact IH|].
+  destruct (l && s); [now right | exact IH].
+Qed.
+
+Lemma loop_match_iff regs : loop_match true regs = HAccepted <-> existsb reg_matches regs = true.
+Proof.
+  induction regs as [|k r IH]; cbn; [split; discriminate|]. destruct k as [|l s]; cbn; [exact IH|].
+  destruct (l && s); cbn; [split; reflexivity | exact IH].
+Qed.
+
+Lemma native_redirect_total n : native_redirect true n = HRefused \/ native_redirect true n = HAccepted.
+Proof.
+  unfold native_redirect. destruct (n_listed n).
+  - destruct (n_dev n || (negb (n_loopback n) && n_https n) || n_loopback n || n_custom n); auto.
+  - destruct (negb (n_loopback n)); [now left | apply loop_match_total].
+Qed.
+
+Lemma native_unlisted_accept_iff n :
+  n_listed n = false ->
+  (native_redirect true n = HAccepted <-> n_loopback n && existsb reg_matches (n_regs n) = true).
+Proof.
+  intro L. unfold native_redirect. rewrite L. destruct (n_loopback n); cbn.
+  - apply loop_match_iff.
+  - split; discriminate.
+Qed.
+
+Lemma native_unguarded_panics :
+  native_redirect false {| n_entry := ViaProvider; n_listed := false; n_dev := false; n_loopback := true; n_https := false;
+                           n_custom := false; n_regs := [RgHttp true false; RgNil] |} = HPanic.
+Proof. reflexivity. Qed.
+
 (* ---- central theorem ---- *)
 Lemma spec_model i : spec i (model i) = true.
 Proof.
-  destruct i as [d m j t|k tok t|s|x|hc he hh|cx|be bh bo|au|ro|e c q|h a e t|dev tok t|o|n amount dash]; cbn.
+  destruct i as [d m j t|k tok t|s|x|hc he hh|cx|be bh bo|au|ro|nn|e c q|h a e t|dev tok t|o|n amount dash]; cbn.
   - pose proof (decode_total t d j) as H. destruct (decode t d j); try reflexivity. now elim H.
   - pose proof (verify_total (time_of t) (lang_of t) k tok) as H.
     destruct (verify _ _ true true k tok); try reflexivity. now elim H.
@@ -493,12 +546,15 @@ Proof.
   - apply bearer_userinfo_single.
   - apply ahandler_single.
   - destruct (ro_handler_total ro) as [H|H]; rewrite H; reflexivity.
+  - destruct (native_redirect_total nn) as [H|H]; rewrite H; reflexivity.
   - reflexivity.
   - pose proof (call_total (time_of t) (lang_of t) h a e) as H.
     pose proof (call_ok_well_formed (time_of t) (lang_of t) h a e) as W.
-    destruct (call _ _ true h a e); try reflexivity; [now apply W | now elim H].
+    pose proof (call_returns (time_of t) (lang_of t) h a e) as R.
+    destruct (call _ _ true h a e); try reflexivity; [now apply W | now elim H | now elim R].
   - pose proof (device_flow_total (time_of t) (lang_of t) dev tok) as H.
-    destruct (device_flow _ _ true dev tok); try reflexivity. now elim H.
+    pose proof (device_flow_returns (time_of t) (lang_of t) dev tok) as R.
+    destruct (device_flow _ _ true dev tok); try reflexivity; [now elim H | now elim R].
   - unfold decrypt_aes. destruct (ot_other o); [reflexivity|].
     destruct (ot_chars o mod 4 =? 1)%N; [reflexivity|]. destruct (decoded_len (ot_chars o) <? 16)%N; reflexivity.
   - destruct ((n <=? 0)%Z || (amount <=? 0)%Z); reflexivity.
@@ -628,3 +684,12 @@ Lemma client_auth_total :
 Proof.
   intro a. destruct a as [e ep p t k b]. destruct e, ep, p, t, k, b; exact I.
 Qed.
+
+Lemma client_returns :
+  forall (rfc3339_ok : string -> bool) (lang_class : string -> nat),
+    (forall h a expect, call rfc3339_ok lang_class true h a expect <> CHang) /\
+    (forall dev tok, device_flow rfc3339_ok lang_class true dev tok <> CHang).
+Proof. intros f g; split; intros; [apply call_returns | apply device_flow_returns]. Qed.
+
+Lemma native_unguarded_refuted : exists n, native_redirect false n = HPanic.
+Proof. eexists. exact native_unguarded_panics. Qed.
